@@ -9,6 +9,7 @@ import (
 	"os"
 	"os/exec"
 	"path/filepath"
+	"regexp"
 	"strconv"
 	"strings"
 
@@ -205,6 +206,11 @@ func c19Eval(r *core.Run, c *c19Case) {
 			_ = os.WriteFile(src, append([]byte("package main\n\n// inserted\n// lines\n// on top\n\nvar shifted = 1\n\n"), bytes.TrimPrefix(orig, []byte("package main\n"))...), 0o644)
 		case "arity":
 			_ = os.WriteFile(src, bytes.ReplaceAll(orig, []byte("(p0 "), []byte("(extra0 string, p0 ")), 0o644)
+		case "arity-int":
+			_ = os.WriteFile(src, bytes.ReplaceAll(bytes.ReplaceAll(orig, []byte("(p0 "), []byte("(extra0 int, p0 ")), []byte("(p0, "), []byte("(extra0 int, p0, ")), 0o644)
+		case "arity-less":
+			// the source declares fewer parameters than the binary passes
+			_ = os.WriteFile(src, regexp.MustCompile(`(?m)^(func [^\n]*)\(p0 [^,)]+, `).ReplaceAll(orig, []byte("$1(")), 0o644)
 		case "syntax":
 			_ = os.WriteFile(src, append(orig, []byte("\nfunc broken( {\n")...), 0o644)
 		case "directory":
@@ -218,6 +224,25 @@ func c19Eval(r *core.Run, c *c19Case) {
 		case "other-package":
 			_ = os.WriteFile(src, []byte("package main\n\nfunc unrelated() {}\n"), 0o644)
 		}
+	}
+	if c.Mismatch == "mutated-trace" {
+		// sources intact, the traceback itself corrupted (argument lists reshaped, lines spliced ...): source
+		// analysis then meets argument shapes its types do not match. Only "never a crash" is decided here.
+		rr := core.NewRand(c.Seed, 193, uint64(c.Idx))
+		for k := 0; k < 12; k++ {
+			mt := gen.Mutate(rr, bp.trace, bp.trace, 1+rr.Intn(6), 1<<20)
+			var p any
+			func() {
+				defer func() { p = recover() }()
+				_, _, _, _ = scanAll(mt, c19Opts(bp.goroot, true, c.Naming))
+			}()
+			r.Eval(1)
+			if p != nil {
+				r.Violation("panic", fmt.Sprintf("source analysis panicked on a corrupted traceback of a program whose sources are present: %v", p), "progtrace", map[string]any{"case": c, "trace": string(mt)})
+				return
+			}
+		}
+		return
 	}
 	var on *stack.Snapshot
 	var panicked any
@@ -295,8 +320,8 @@ func runC19(r *core.Run) {
 		tools = append(tools, "go1.26.8")
 	}
 	np := r.N(40, 300)
-	mism := []string{"delete", "truncate", "shift", "arity", "syntax", "directory", "symlink", "empty", "other-package"}
-	nm := r.N(36, 600)
+	mism := []string{"delete", "truncate", "shift", "arity", "syntax", "directory", "symlink", "empty", "other-package", "arity-int", "arity-less", "mutated-trace", "mutated-trace", "arity-int"}
+	nm := r.N(56, 900)
 	type job struct{ c c19Case }
 	var jobs []c19Case
 	for _, t := range tools {
